@@ -120,6 +120,9 @@ func main() {
 	var ids []string
 	if *prop == "all" {
 		for id := range props {
+			if strings.HasPrefix(id, "X") {
+				continue // exploration-only pseudo properties
+			}
 			ids = append(ids, id)
 		}
 		sort.Strings(ids)
